@@ -128,6 +128,10 @@ func ApplyForURL(url string, timeout time.Duration, opts *Options) (*Result, err
 	// Apply distiller to response body
 	if opts == nil {
 		opts = &Options{}
+	} else {
+		// The options belong to the caller, so set the URL on a copy.
+		optsCopy := *opts
+		opts = &optsCopy
 	}
 
 	opts.OriginalURL = parsedURL
